@@ -4824,6 +4824,9 @@ type enterFinally struct{}
 func (enterFinally) exec(vm *vm) {
 	tf := &vm.tryStack[len(vm.tryStack)-1]
 	tf.finallyPos = -1
+	// the try block has completed: an exception thrown by the finally block must not be delivered
+	// to the catch clause of the same statement
+	tf.catchPos = -1
 	vm.pc++
 }
 
